@@ -513,9 +513,9 @@ def run(ctx):
         depth += 1
         ctx.log(f"depth {depth}: {len(seen)} states, {transitions} transitions, frontier {len(nxt)}")
         frontier = nxt
-        if len(seen) > 15000 and frontier:
-            ctx.cap(f"state cap 15000 exceeded at depth {depth} ({len(frontier)} unexpanded): the reachable set does not close "
-                    f"(it closes at ~2,500 states on the audited tree)")
+        if len(seen) > 4000 and frontier:
+            ctx.cap(f"state cap 4000 exceeded at depth {depth} ({len(frontier)} unexpanded): the reachable set does not close "
+                    f"(it closes at ~1,200 states on the audited tree)")
             break
     else:
         closed = True
